@@ -5,6 +5,7 @@ package main
 // counts 0..4 x {default, WithExperimentalFuncs}, with well-typed arguments.
 
 import (
+	"time"
 	"errors"
 	"fmt"
 	"sort"
@@ -12,6 +13,7 @@ import (
 
 	"github.com/verily-src/fhirpath-go/fhirpath"
 	"github.com/verily-src/fhirpath-go/fhirpath/compopts"
+	"github.com/verily-src/fhirpath-go/fhirpath/evalopts"
 	"github.com/verily-src/fhirpath-go/fhirpath/internal/funcs"
 	"github.com/verily-src/fhirpath-go/fhirpath/internal/funcs/impl"
 	"github.com/verily-src/fhirpath-go/fhirpath/system"
@@ -99,6 +101,69 @@ func runC16Witnesses(c *Ctx, input []fhir.Resource) {
 
 // runC16Custom: a function added with an option takes exactly as many arguments as its Go signature has
 // parameters after the input collection.
+// runC16Arguments: an argument that does not compile makes the call not compile, at every argument position; and a
+// function gives the same answer on an empty receiver however that empty collection came about.
+func runC16Arguments(c *Ctx, input []fhir.Resource) {
+	table := funcs.AddExperimentalFuncs(funcs.Clone())
+	var names []string
+	for n := range table {
+		names = append(names, n)
+	}
+	sort.Strings(names)
+	for _, name := range names {
+		f := table[name]
+		shape, ok := n1Shapes[name]
+		if !ok {
+			shape = callShape{"Patient.name", nil}
+		}
+		for n := f.MinArity; n <= f.MaxArity; n++ {
+			args := make([]string, n)
+			for i := range args {
+				if i < len(shape.args) {
+					args[i] = shape.args[i]
+				} else {
+					args[i] = "1"
+				}
+			}
+			for pos := 0; pos < n; pos++ {
+				for _, bad := range []string{"bogus()", "count(1)", "name.single(1)", "nosuch(1, 2)", "1.toString(2)"} {
+					a2 := append([]string{}, args...)
+					a2[pos] = bad
+					src := shape.recv + "." + name + "(" + strings.Join(a2, ", ") + ")"
+					_, err := fhirpath.Compile(src, compopts.WithExperimentalFuncs())
+					c.Observe("bad argument "+src, true)
+					c.Law(err != nil, "C16/bad-argument-accepted", "a call whose argument does not compile (unknown function, wrong argument count) does not compile, whatever the argument's position", src, "compiled")
+				}
+			}
+			// empty receivers produced in different ways are the same receiver
+			call := "." + name + "(" + strings.Join(args, ", ") + ")"
+			ref := ""
+			for ri, recv := range []string{"{}", "Patient.extension('http://none')", "(1).exclude(1)", "{}.distinct()", "Patient.name.where(false)", "Patient.nosuchElementHere", "Patient.name.skip(9)", "Patient.name.take(1).tail()", "(1).intersect(2)", "Patient.deceased", "%ve"} {
+				src := recv + call
+				if recv == "Patient.nosuchElementHere" {
+					src = "Patient.photo" + call
+				}
+				e, err := fhirpath.Compile(src, compopts.WithExperimentalFuncs())
+				if err != nil {
+					continue
+				}
+				o := safeEval(func() (system.Collection, error) { return e.Evaluate(input, evalopts.EnvVariable("ve", system.Collection{}), evalopts.OverrideTime(time.Date(2024, 2, 29, 12, 0, 0, 0, time.UTC)))
+				})
+				got := canonOutcome(o, nil)
+				if o.Err != nil {
+					got = "err:" + errClass(o.Err)
+				}
+				if ri == 0 {
+					ref = got
+					continue
+				}
+				c.Observe("empty receiver "+src, true)
+				c.Law(got == ref, "C16/empty-receiver-route", "a function gives one answer on an empty receiver, however the empty collection was produced", src, got+" vs {}"+call+" = "+ref)
+			}
+		}
+	}
+}
+
 func runC16Custom(c *Ctx, input []fhir.Resource) {
 	fns := map[string]any{
 		"zero": func(in system.Collection) (system.Collection, error) { return in, nil },
@@ -130,12 +195,16 @@ func runC16Custom(c *Ctx, input []fhir.Resource) {
 }
 
 func runC16(c *Ctx) {
+	// the two tables as the package defines them, read before anything is compiled
+	pristine := funcs.Clone()
+	pristineExp := funcs.AddExperimentalFuncs(funcs.Clone())
 	c.meta.Rule = "exhaustive: (N1 names ∪ base table ∪ experimental table ∪ 3 unknown names) x argument counts 0..4 x {default, WithExperimentalFuncs}; receiver and arguments well-typed per specification signature (extra arguments are the literal 1); non-trivial = the name exists in the table used; distinct by (options, name, count)"
 	c.meta.Exhaustive = true
 	input := []fhir.Resource{mustResource(`{"resourceType":"Patient","id":"p1","active":true,"name":[{"family":"A","given":["x","y","x"]},{"family":"B"}],
 	  "extension":[{"url":"http://example.org/e","valueString":"v"}]}`)}
 	runC16Witnesses(c, input)
 	runC16Custom(c, input)
+	runC16Arguments(c, input)
 	names := map[string]bool{"nosuch": true, "Where": true, "toquantity": true}
 	base := funcs.Clone()
 	for k := range base {
@@ -152,15 +221,18 @@ func runC16(c *Ctx) {
 		sorted = append(sorted, k)
 	}
 	sort.Strings(sorted)
-	for _, exp := range []bool{false, true} {
+	// the two tables as they are before anything is compiled with options; the default pass is run again after the
+	// experimental one (what one Compile enables must not be there for the next)
+	for pass, exp := range []bool{false, true, false} {
 		var copts []fhirpath.CompileOption
 		tag := "0"
-		table := funcs.Clone()
+		table := pristine
 		if exp {
 			copts = append(copts, compopts.WithExperimentalFuncs())
 			tag = "1"
-			table = funcs.AddExperimentalFuncs(table)
+			table = pristineExp
 		}
+		_ = pass
 		for _, name := range sorted {
 			shape, ok := n1Shapes[name]
 			if !ok {
@@ -206,6 +278,9 @@ func runC16(c *Ctx) {
 				}
 				_, inTable := table[name]
 				c.Emit(fmt.Sprintf("fcall %s %s %d", tag, name, n), out, inTable)
+				if !inTable {
+					c.Law(out == "unresolved", "C16/unknown-accepted", "a name that is not a function of the table in force is rejected by Compile", src+" (experimental functions "+tag+fmt.Sprintf(", pass %d", pass)+")", out)
+				}
 				// specification arities (N1 and the experimental functions): a call with an allowed
 				// argument count of a function that is in the table is accepted
 				if ar, ok := specArities[name]; ok && inTable {
